@@ -1039,6 +1039,32 @@ def record_probes(ctx, memo, rnd, quick, ncount, cold, decisive):
             it = iter(pc)
             next(it)
             ask(tail, C[1:], f1, lambda: REAL[f1](it), "half-consumed iterator")
+    # -- questions abandoned half way (KeyboardInterrupt inside the library, also while a permutation's entry of a memo table
+    #    is being worked out), then every question asked on the same and on overlapping bases
+    nint = 0
+    for i in range(80 * scale):
+        # elements the tables have not seen: a monotone or layered element of a length of its own next to random ones
+        k = 6 + i % 7
+        special = (tuple(range(k)), tuple(range(k - 1, -1, -1)), layered_like(rnd, k), structured(rnd, k))[i % 4]
+        B = [tuple(special)] + [util.rand_perm(rnd, rnd.randint(3, 7)) for _ in range(rnd.randint(0, 2))]
+        if i % 2:
+            # an increasing and a decreasing element of lengths no earlier question used: together they decide most verdicts
+            m = 8 + (i // 2) % 7
+            B = [tuple(range(m)), tuple(range(m, -1, -1))] + B[1:2]
+        if memo.ok:                       # the tables forget the elements of this question: the abandoned call meets them afresh
+            for t in memo.tables():
+                for p in B:
+                    t.pop(Perm(p), None)
+        rnd.shuffle(B)
+        perms = [Perm(p) for p in B]
+        f0 = FUNS[1 + i % 5]
+        st, _ = util.interrupted_call(lambda: REAL[f0](list(perms)), rnd.randint(1, 90), suffixes=("permuta/permutils/",))
+        nint += st == "interrupted"
+        for f in FUNS[1:]:
+            ask(tail, B, f, lambda: REAL[f](list(perms)), "after an abandoned %s" % NAME[f0])
+        if len(B) > 1:
+            ask(tail, B[:1], f0, lambda: REAL[f0](list(perms[:1])), "after an abandoned %s on a superset" % NAME[f0])
+    ctx.note("questions_abandoned_half_way", nint)
     # -- the cold processes and the command lines started earlier
     for B, via, proc in cold:
         try:
